@@ -2,6 +2,7 @@ import Driver.Core
 import Driver.RW
 import Driver.Gen
 import Driver.EnumD
+import Driver.ImpD
 /-! One request per line on stdin, one canonical answer per line on stdout. -/
 open Driver EoVerif
 
@@ -38,6 +39,7 @@ def step (st : DState) (line : String) : DState × String :=
     let (rs', out) := handleReader st.rs rest
     ({ st with rs := rs' }, out)
   | "cp1252" :: rest => (st, handleCp rest)
+  | "imp" :: rest => (st, handleImp rest)
   | "enum" :: rest =>
     let (e', out) := handleEnum st.enums rest
     ({ st with enums := e' }, out)
